@@ -1244,3 +1244,113 @@ Proof.
     destruct (IH _ cfgs _ log1 H1) as (log2 & H2 & Hrw2).
     exists log2. split; [exact H2 |]. unfold multi_run in Hrw2. rewrite Hrw2. exact Hrw1.
 Qed.
+
+(* ---------- Close of the multi-track writer ---------- *)
+
+Lemma last_ok_replace_other : forall log tr k s1 P1 P1',
+  last_ok true log tr -> nth_error log k = Some (s1, P1) -> s1 <> tr_serial tr ->
+  length (pg_data P1') = length (pg_data P1) ->
+  last_ok true (replace_nth log k (s1, P1')) tr.
+Proof.
+  intros log tr k s1 P1 P1' Hl Hn Hne Hlen. unfold last_ok in *.
+  pose proof (replace_keeps_mine (tr_serial tr) log k s1 P1' P1 0%nat Hn Hne) as Hm. cbn [skipn] in Hm.
+  rewrite Hm. destruct (mine (tr_serial tr) log); [exact Hl|].
+  destruct Hl as (k2 & P2 & Hn2 & Hpost & Hfin & Hlast).
+  assert (Hk : k2 <> k) by (intros ->; rewrite Hn in Hn2; injection Hn2 as E _; congruence).
+  exists k2, P2. split; [| split; [| split]].
+  - rewrite replace_keeps_nth by exact Hk. exact Hn2.
+  - rewrite (replace_keeps_mine (tr_serial tr) log k s1 P1' P1 (S k2) Hn Hne). exact Hpost.
+  - exact Hfin.
+  - rewrite (replace_keeps_pos log k s1 P1' P1 k2 Hn Hlen). exact Hlast.
+Qed.
+
+Lemma mark_all_spec : forall trs log,
+  (forall tr, In tr trs -> last_ok true log tr /\ mine (tr_serial tr) log <> []) ->
+  NoDup (map tr_serial trs) ->
+  exists log',
+    mark_all (bytes_of log) trs = Ok (bytes_of log') /\
+    (forall tr, In tr trs -> exists front P P',
+        mine (tr_serial tr) log = front ++ [P] /\ mine (tr_serial tr) log' = front ++ [P'] /\
+        eos_of (tr_serial tr) P P') /\
+    (forall s, ~ In s (map tr_serial trs) -> mine s log' = mine s log).
+Proof.
+  induction trs as [|tr trs IH]; intros log Hall Hnd.
+  - exists log. split; [reflexivity|]. split; [intros tr []| reflexivity].
+  - cbn [mark_all]. cbn [map] in Hnd. inversion Hnd as [| ? ? Hnotin Hnd']; subst.
+    destruct (Hall tr (or_introl eq_refl)) as (Hl & Hne).
+    destruct (mark_eos_spec log tr Hl Hne) as (k & P & P' & Hnth & Hpost & Heos & Hdl & Hm).
+    rewrite Hm. set (log1 := replace_nth log k (tr_serial tr, P')).
+    assert (Hother : forall s, s <> tr_serial tr -> mine s log1 = mine s log).
+    { intros s Hs. pose proof (replace_keeps_mine s log k (tr_serial tr) P' P 0%nat Hnth) as H.
+      cbn [skipn] in H. apply H. congruence. }
+    destruct (IH log1) as (log' & Hma & Htrs & Hrest).
+    { intros tr2 Hin.
+      assert (Hs2 : tr_serial tr <> tr_serial tr2)
+        by (intros E; apply Hnotin; rewrite E; apply in_map; exact Hin).
+      destruct (Hall tr2 (or_intror Hin)) as (Hl2 & Hne2). split.
+      - apply (last_ok_replace_other log tr2 k (tr_serial tr) P P' Hl2 Hnth Hs2 Hdl).
+      - rewrite Hother by congruence. exact Hne2. }
+    { exact Hnd'. }
+    exists log'. split; [exact Hma|]. split.
+    + intros tr2 [<- | Hin].
+      * exists (mine (tr_serial tr) (firstn k log)), P, P'.
+        split; [| split; [| exact Heos]].
+        -- rewrite (mine_split_at _ _ _ _ Hnth), Hpost. reflexivity.
+        -- rewrite (Hrest _ Hnotin).
+           assert (Hn1 : nth_error log1 k = Some (tr_serial tr, P'))
+             by (apply (replace_nth_same log k _ _ Hnth)).
+           rewrite (mine_split_at _ _ _ _ Hn1). unfold log1.
+           rewrite firstn_replace, skipn_replace, Hpost. reflexivity.
+      * destruct (Htrs tr2 Hin) as (front & P2 & P2' & H1 & H2 & H3).
+        exists front, P2, P2'. split; [| split; assumption].
+        rewrite <- Hother; [exact H1|]. intros E. apply Hnotin. rewrite <- E. apply in_map. exact Hin.
+    + intros s Hs. cbn [map] in Hs. rewrite Hrest by (intros Hin; apply Hs; right; exact Hin).
+      apply Hother. intros E. apply Hs. left. symmetry. exact E.
+Qed.
+
+Lemma each_nil : forall trs log,
+  Forall (fun tr => tr_page_index tr <> 0) trs ->
+  exists nils trs',
+    each_track (write_nil_eos writer_table) (bytes_of log) trs = Ok (bytes_of (log ++ nils), trs') /\
+    Forall2 (fun tr sp => fst sp = tr_serial tr /\
+                          nil_eos_page (tr_serial tr) (tr_prev_granule tr) (tr_page_index tr) (snd sp))
+            trs nils.
+Proof.
+  induction trs as [|tr trs IH]; intros log Hnz.
+  - exists [], []. cbn [each_track]. rewrite app_nil_r. split; [reflexivity | constructor].
+  - inversion Hnz as [| ? ? Hz Hnz']; subst. cbn [each_track].
+    destruct (write_nil_eos_spec log tr Hz) as (P & tr' & Hnil & Hw). rewrite Hw.
+    destruct (IH (log ++ [(tr_serial tr, P)]) Hnz') as (nils & trs' & He & Hf). rewrite He.
+    exists ((tr_serial tr, P) :: nils), (tr' :: trs'). split.
+    + rewrite <- app_assoc. reflexivity.
+    + constructor; [split; [reflexivity | exact Hnil] | exact Hf].
+Qed.
+
+Lemma mine_nils : forall trs nils,
+  Forall2 (fun tr sp => fst sp = tr_serial tr /\
+                        nil_eos_page (tr_serial tr) (tr_prev_granule tr) (tr_page_index tr) (snd sp))
+          trs nils ->
+  NoDup (map tr_serial trs) ->
+  forall tr, In tr trs -> exists nilP,
+    mine (tr_serial tr) nils = [nilP] /\
+    nil_eos_page (tr_serial tr) (tr_prev_granule tr) (tr_page_index tr) nilP.
+Proof.
+  intros trs nils H. induction H as [| tr0 sp trs nils (Hs & Hnil) H IH]; intros Hnd tr Hin; [destruct Hin|].
+  cbn [map] in Hnd. inversion Hnd as [| ? ? Hnotin Hnd']; subst.
+  assert (Hno : forall t, In t trs -> mine (tr_serial t) [sp] = []).
+  { intros t Ht. unfold mine. cbn [filter]. rewrite Hs.
+    replace (tr_serial tr0 =? tr_serial t) with false; [reflexivity|].
+    symmetry. apply N.eqb_neq. intros E. apply Hnotin. rewrite E. apply in_map. exact Ht. }
+  assert (Hrest0 : mine (tr_serial tr0) nils = []).
+  { clear - H Hnotin. induction H as [| t sp2 trs nils (Hs2 & _) H IH]; [reflexivity|].
+    unfold mine in *. cbn [filter]. rewrite Hs2.
+    replace (tr_serial t =? tr_serial tr0) with false.
+    - apply IH. intros Hin. apply Hnotin. right. exact Hin.
+    - symmetry. apply N.eqb_neq. intros E. apply Hnotin. left. exact E. }
+  destruct Hin as [<- | Hin].
+  - exists (snd sp). split; [| exact Hnil].
+    change (sp :: nils) with ([sp] ++ nils). rewrite mine_app, Hrest0, app_nil_r.
+    unfold mine. cbn [filter]. rewrite Hs, N.eqb_refl. reflexivity.
+  - destruct (IH Hnd' tr Hin) as (nilP & Hm & Hn). exists nilP. split; [| exact Hn].
+    change (sp :: nils) with ([sp] ++ nils). rewrite mine_app, (Hno tr Hin). exact Hm.
+Qed.
